@@ -3,6 +3,7 @@ package main
 import (
 	"flag"
 	"math/rand"
+	"sync"
 
 	cf "verifharness/internal/coqfmt"
 )
@@ -30,6 +31,35 @@ func main() {
 	}
 	for i := 0; i < *n && hangs < 2; i++ {
 		ws.Add(syncCase(genSync(r)))
+	}
+	// two concurrent SendMessage callers: each case waits 100 ms on the unmodified mock, so they run side by side
+	nc := *n / 12
+	if nc > 400 {
+		nc = 400
+	}
+	scripts := make([]sscript, nc)
+	for i := range scripts {
+		scripts[i] = genSyncConcurrent(r)
+	}
+	type tc struct {
+		term string
+		side cf.Sidecar
+	}
+	res := make([]tc, nc)
+	var wg sync.WaitGroup
+	sem := make(chan struct{}, 48)
+	for i := range scripts {
+		wg.Add(1)
+		go func(i int) {
+			defer wg.Done()
+			sem <- struct{}{}
+			res[i].term, res[i].side = syncCase(scripts[i])
+			<-sem
+		}(i)
+	}
+	wg.Wait()
+	for _, x := range res {
+		ws.Add(x.term, x.side)
 	}
 	hangs = 0
 	for _, s := range consumerCorpus() {
